@@ -31,11 +31,11 @@ type Config struct {
 }
 
 var configs = map[string]Config{
-	"c-default":  {Name: "c-default", Variant: "default"},
-	"c-noavx2":   {Name: "c-noavx2", Env: []string{"GODEBUG=cpu.avx2=off"}, Variant: "default"},
-	"c-sse":      {Name: "c-sse", Env: []string{"GODEBUG=cpu.avx2=off,cpu.avx=off"}, Variant: "default"},
-	"c-scalar":   {Name: "c-scalar", Env: []string{"GODEBUG=cpu.avx2=off,cpu.avx=off,cpu.ssse3=off"}, Variant: "default"},
-	"c-nobmi2":   {Name: "c-nobmi2", Env: []string{"GODEBUG=cpu.bmi2=off,cpu.adx=off"}, Variant: "default"},
+	"c-default": {Name: "c-default", Variant: "default"},
+	"c-noavx2":  {Name: "c-noavx2", Env: []string{"GODEBUG=cpu.avx2=off"}, Variant: "default"},
+	"c-sse":     {Name: "c-sse", Env: []string{"GODEBUG=cpu.avx2=off,cpu.avx=off"}, Variant: "default"},
+	"c-scalar":  {Name: "c-scalar", Env: []string{"GODEBUG=cpu.avx2=off,cpu.avx=off,cpu.ssse3=off"}, Variant: "default"},
+	"c-nobmi2":  {Name: "c-nobmi2", Env: []string{"GODEBUG=cpu.bmi2=off,cpu.adx=off"}, Variant: "default"},
 	// "inconsistent" single-flag settings (the cpu options do not cascade): AVX2 still on with AVX off, AVX on with SSSE3 off.
 	// A dispatch that tests the flags in another order than the code that sizes its batches only shows here.
 	"c-avxoff":   {Name: "c-avxoff", Env: []string{"GODEBUG=cpu.avx=off"}, Variant: "default"},
